@@ -8,9 +8,10 @@
                                          lookups.rs, contextual.rs, features.rs and the write-fonts
                                          builders)
     `shape t script lang feats alt s`    OpenType application of the tables `t`
-  Full statement: `FullStatement` below.  It is FALSE of fea-rs as it is: the anonymous lookups of
-  contextual rules are shared between rules in ways that change what a rule does (three defects,
-  `not_FullStatement`, replayed on the real compiler by stream `c11x`).  What is proved:
+  Full statement: `FullStatement` below.  It was FALSE of fea-rs as found: the anonymous lookups of
+  contextual rules were shared between rules in ways that change what a rule does (three defects,
+  `not_FullStatement` about `compileOld`, found by stream `c11x` on the real compiler and repaired by
+  three `fix:` commits; `compile` is the repaired compiler).  What is proved:
     * `compile_correct`: for every program of a decidable fragment (`Fragment.ok`: language systems,
       named lookup blocks, lookup references, `script` / `language` statements with `exclude_dflt`,
       lookup flags, all substitution types incl. contextual rules with in-line single / multiple
@@ -38,11 +39,15 @@ open Fontc.FeaCompile
     violation of the modelled subset other than, possibly, the three sharing patterns of inline
     contextual rules that fea-rs compiles wrongly), every declared language system, every feature set
     and *every* glyph string. -/
-def FullStatement : Prop :=
+def FullStatementOf (comp : Program → OT.Tables) : Prop :=
   ∀ (p : Program) (script lang : Tag) (feats : List Tag) (alt : Nat) (s : List Glyph),
     Wf.okUpToAnon p = true →
     (script, lang) ∈ Src.langsysOf p.tops →
-    shape (compile p) script lang feats alt s = interp p script lang feats alt s
+    shape (comp p) script lang feats alt s = interp p script lang feats alt s
+
+/-- the full statement for fea-rs as it is (not proved at this strength: `compile_correct` proves it for
+    the fragment `Fragment.ok`; refuted for the code before the three repairs, `not_FullStatement`) -/
+def FullStatement : Prop := FullStatementOf compile
 
 /-- **Lookup flags.**  `cf` is the compiled form of the source flag `f` (`FlagCode`: bits, mark
     attachment class id and mark filtering set id resolved through the id tables `aIds`, `fIds` that
@@ -182,7 +187,8 @@ theorem shape_eq_interp_of_correspondence (p : Program) (t : OT.Tables) (script 
     their GDEF tables, lookup ids in both tables, registration of every lookup under every
     declared language system, the feature / script / LangSys records and the OpenType selection
     back from them, and the application of every lookup at every position of `str`.
-    `fx = {}` is fea-rs as it is (`compile p = compileWith {} p`). -/
+    `fx = Cmp.Fixes.all` is fea-rs as it is (`compile p = compileWith Cmp.Fixes.all p`), `{}` the code
+    before the repairs. -/
 theorem compile_correct_flat (fx : Cmp.Fixes) (p : Program) (ls : List (Tag × Tag)) (fs : List (Tag × List Stmt))
     (U : List (List Glyph))
     (htops : p.tops = lsTops ls ++ featTops fs)
@@ -238,7 +244,7 @@ theorem exProg_entries : ∀ e ∈ Src.entries exProg, runOkB e.lookup.rules = t
 /-- the flat fragment applies to `exProg`, for latn/dflt, any feature set, any string -/
 example (feats : List Tag) (alt : Nat) (str : List Glyph) :
     shape (compile exProg) "latn" "dflt" feats alt str = interp exProg "latn" "dflt" feats alt str :=
-  compile_correct_flat {} exProg exLs exFs [[13]] rfl exProg_bodies exProg_entries (by decide) (by decide) (by decide)
+  compile_correct_flat Cmp.Fixes.all exProg exLs exFs [[13]] rfl exProg_bodies exProg_entries (by decide) (by decide) (by decide)
     "latn" "dflt" (by decide) feats alt str
 
 /-- **`compile_correct`** — the whole pipeline, every string, for every program of the fragment.
@@ -264,8 +270,8 @@ example (feats : List Tag) (alt : Nat) (str : List Glyph) :
     falls back to the default language system when the record is missing; see "assumptions").
     Outside the fragment (not proved, checked by the streams only): pair positioning, in-line ligature
     replacements and explicit `lookup` references in contextual rules, `mixed-run` merging.
-    `fx = {}` is fea-rs as it is (`compile p = compileWith {} p`); the theorem also holds of the
-    repaired compilers. -/
+    `fx = Cmp.Fixes.all` is fea-rs as it is (`compile p = compileWith Cmp.Fixes.all p`); the theorem
+    holds for every combination of the repairs, so also of the code before them. -/
 theorem compile_correct (fx : Cmp.Fixes) (p : Program) (hok : Fragment.ok p = true)
     (script lang : Tag) (hlang : Fragment.langOkB (Src.entries p) script lang = true)
     (feats : List Tag) (alt : Nat) (str : List Glyph) :
@@ -294,7 +300,7 @@ theorem exProg2_lang : Fragment.langOkB (Src.entries exProg2) "latn" "TRK" = tru
 /-- `compile_correct` applies to `exProg2`, for latn/TRK, any feature set, any string -/
 example (feats : List Tag) (alt : Nat) (str : List Glyph) :
     shape (compile exProg2) "latn" "TRK" feats alt str = interp exProg2 "latn" "TRK" feats alt str :=
-  compile_correct {} exProg2 exProg2_ok "latn" "TRK" exProg2_lang feats alt str
+  compile_correct Cmp.Fixes.all exProg2 exProg2_ok "latn" "TRK" exProg2_lang feats alt str
 
 /-- what the source semantics registers in `exProg2`: `L1` for DFLT/dflt, latn/dflt and (second
     reference) latn/TRK; the root rule not for latn/TRK (`exclude_dflt`); … -/
@@ -306,7 +312,7 @@ theorem exProg2_regs : (Src.entries exProg2).map (fun e => (e.lookup.name, e.reg
      (none, [("kern", "DFLT", "dflt"), ("kern", "latn", "dflt"), ("kern", "latn", "TRK")]),
      (none, [("kern", "latn", "TRK")])] := by decide
 
-/-! ### the full statement is false of fea-rs as it is (defect F-C11-1) -/
+/-! ### the full statement was false of fea-rs before the repairs (defect F-C11-1, `compileOld`) -/
 
 /-- `feature test { sub d' c by e;  sub c [a d]' by f; } test;`
     (glyph ids: a = 1, c = 3, d = 4, e = 5, f = 6) -/
@@ -347,36 +353,59 @@ theorem pass_two_ot (ign : Glyph → Bool) (st : Step) (g1 g2 o : Glyph) (h1 : i
   rw [OT.pass]; simp only [h3, h4]; simp
   rw [OT.pass]; simp
 
-theorem cex_gdef : (compile cexProg).gdef = {} := by
+theorem cex_gdef : (compileOld cexProg).gdef = {} := by
   have ha : (cexProg.tops.foldl (Cmp.St.top {}) {}).attachIds = [] := by decide
   have hf : (cexProg.tops.foldl (Cmp.St.top {}) {}).filterIds = [] := by decide
-  simp only [compile, compileWith, Cmp.buildGdef, ha, hf]
+  simp only [compileOld, compileWith, Cmp.buildGdef, ha, hf]
   simp [cexProg]
 
-theorem cex_shape : shape (compile cexProg) "DFLT" "dflt" ["test"] 0 [4, 3] = [(6, Value.zero), (3, Value.zero)] := by
-  have h1 : OT.activeLookups (compile cexProg).gsub "DFLT" "dflt" ["test"] = [0] := by decide
-  have h2 : OT.activeLookups (compile cexProg).gpos "DFLT" "dflt" ["test"] = [] := by decide
+theorem cex_shape : shape (compileOld cexProg) "DFLT" "dflt" ["test"] 0 [4, 3] = [(6, Value.zero), (3, Value.zero)] := by
+  have h1 : OT.activeLookups (compileOld cexProg).gsub "DFLT" "dflt" ["test"] = [0] := by decide
+  have h2 : OT.activeLookups (compileOld cexProg).gpos "DFLT" "dflt" ["test"] = [] := by decide
   simp only [shape, h1, h2, List.foldl_cons, List.foldl_nil, OT.applyAtIdx]
-  have hL : (compile cexProg).gsub.lookups = [
+  have hL : (compileOld cexProg).gsub.lookups = [
       ⟨6, 0, none, [.chain3 [] [[4]] [[3]] [(0, 1)], .chain3 [[3]] [[1, 4]] [] [(0, 1)]]⟩,
       ⟨1, 0, none, [.single [(1, 6), (4, 6)]]⟩] := by decide
   simp only [hL, List.getElem?_cons_zero, OT.applyGsub, cex_gdef]
   rw [pass_two_ot _ _ 4 3 6 (by decide) (by decide) (by decide) (by decide)]
   rfl
 
-/-- the full statement fails on fea-rs as it is -/
+/-- the full statement failed on fea-rs before the repairs -/
 theorem not_FullStatement_witness :
-    shape (compile cexProg) "DFLT" "dflt" ["test"] 0 [4, 3] ≠ interp cexProg "DFLT" "dflt" ["test"] 0 [4, 3] := by
+    shape (compileOld cexProg) "DFLT" "dflt" ["test"] 0 [4, 3] ≠ interp cexProg "DFLT" "dflt" ["test"] 0 [4, 3] := by
   rw [cex_shape, cex_interp]; decide
 
 theorem cex_okUpToAnon : Wf.okUpToAnon cexProg = true := by decide
 
-/-- **The full statement fails**: on the string `d c` the source says `e c`, the compiled tables give
+/-- **The full statement failed before the repair**: on the string `d c` the source says `e c`, the compiled tables give
     `f c` — the class → glyph inline substitution of the second rule overwrote `d → e` in the shared
     anonymous lookup.  (The same input is replayed on the real compiler: stream `c11x`, class
-    `anon-single-clobber`; with the repair `{ anonSingle := true }` the model agrees with the source.) -/
-theorem not_FullStatement : ¬ FullStatement := by
+    `anon-single-clobber`, on the code before fix 97654e0; with the repair the model agrees with the source:
+    `cex_repaired`.) -/
+theorem not_FullStatement : ¬ FullStatementOf compileOld := by
   intro h
   exact not_FullStatement_witness (h cexProg "DFLT" "dflt" ["test"] 0 [4, 3] cex_okUpToAnon (by decide))
+
+theorem cex_gdef_repaired : (compile cexProg).gdef = {} := by
+  have ha : (cexProg.tops.foldl (Cmp.St.top Cmp.Fixes.all) {}).attachIds = [] := by decide
+  have hf : (cexProg.tops.foldl (Cmp.St.top Cmp.Fixes.all) {}).filterIds = [] := by decide
+  simp only [compile, compileWith, Cmp.buildGdef, ha, hf]
+  simp [cexProg]
+
+/-- … and the repaired compiler (fea-rs as it is now) does what the source says on the same input:
+    `d → e` and `[a d] → f` now live in two anonymous lookups -/
+theorem cex_repaired :
+    shape (compile cexProg) "DFLT" "dflt" ["test"] 0 [4, 3] = interp cexProg "DFLT" "dflt" ["test"] 0 [4, 3] := by
+  rw [cex_interp]
+  have h1 : OT.activeLookups (compile cexProg).gsub "DFLT" "dflt" ["test"] = [0] := by decide
+  have h2 : OT.activeLookups (compile cexProg).gpos "DFLT" "dflt" ["test"] = [] := by decide
+  simp only [shape, h1, h2, List.foldl_cons, List.foldl_nil, OT.applyAtIdx]
+  have hL : (compile cexProg).gsub.lookups = [
+      ⟨6, 0, none, [.chain3 [] [[4]] [[3]] [(0, 1)], .chain3 [[3]] [[1, 4]] [] [(0, 2)]]⟩,
+      ⟨1, 0, none, [.single [(4, 5)]]⟩,
+      ⟨1, 0, none, [.single [(1, 6), (4, 6)]]⟩] := by decide
+  simp only [hL, List.getElem?_cons_zero, OT.applyGsub, cex_gdef_repaired]
+  rw [pass_two_ot _ _ 4 3 5 (by decide) (by decide) (by decide) (by decide)]
+  rfl
 
 end Fontc.C11
